@@ -27,7 +27,7 @@ FRAG = ["1", "2", "10", "0", "3,5", "1.000", "-5", "+7", "1k", "2M", "0x1F", "0b
         "12:00 am", "23:59:59", "EST", "GMT+3", "GMT-12:30", "GMT+99", "CET", "PST", "km", "m", "cm", "inch", "mile", "kg", "g", "lb",
         "byte", "bit", "mb", "gb", "x", "y", "my var", "hex", "binary", "octal", "decimal", "unix", "date", "hours", "days",
         "[NUMBER:1]", "[NUMBER:abc]", "[PERCENT:x]", "[TIME:90000]", "[TIME:abc]", "[MONEY:12]", "[MONEY:1;usd]", "[MONEY:x;usd]",
-        "[OPERATOR:+]", "[FOO:1]", "[", "]", "{NUMBER:n}", "{TEXT:t:abc}", "{GROUP:g:conversion_group}", "{", "}", ":", ";",
+        "[OPERATOR:+]", "[FOO:1]", "[OPERATOR:]", "[NUMBER:]", "[MONEY:]", "[PERCENT:]", "[TIME:]", "[:]", "[MONEY:;]", "[MONEY:1;]", "[", "]", "{NUMBER:n}", "{TEXT:t:abc}", "{GROUP:g:conversion_group}", "{", "}", ":", ";",
         "#", "# comment jan", "1,2,3%", "1.2.3", ",", ".", "..", "é", "ı", "İ", "ß", "ǰ", "ŉ", "ΐ", "Σ", "ς", "σ", "😀", "́", "\t", " ",
         "1609459200", "at 24", "at 10", "- 3 months", "+ 1 month", "+ 11 months", "10:00 + 24 hours", "10:00 + 2 days",
         "10:00 - 25 hours", "23:59 + 1 week", "36 hours", "25 hours", "1 week", "1 day 3 hours", "12:30 + 100000 seconds"]
@@ -77,6 +77,7 @@ def gen_pre(rng):
         pre.append({"op": "set_money_cfg", "rm": rng.random() < 0.5, "round": rng.random() < 0.5})
     if rng.random() < 0.2:
         pre.append({"op": "set_tz", "v": rng.choice(TZS)})
+    rng.shuffle(pre)
     return pre
 
 
